@@ -243,7 +243,9 @@ def judge_pairs(out, pairs, clause_prefixes, known_matcher=None):
     """ TLC replays the pairs in lock-step (spec/TracePair.tla) """
     def as_trace(p):
         q = strip(p)
-        q['events'] = q['a']['events']           # for shard balancing and the completeness count
+        # for shard balancing and the completeness count: the lock-step replay stops with the shorter run (a run that
+        # stops early was refused, which the SameOutcome clause reports)
+        q['events'] = q['a']['events'] if len(q['a']['events']) <= len(q['b']['events']) else q['b']['events']
         return q
     flat = [as_trace(p) for p in pairs]
     verdicts, stats = tlc.validate_traces(flat, module='TracePair')
@@ -255,6 +257,8 @@ def judge_pairs(out, pairs, clause_prefixes, known_matcher=None):
         for step, fails, marks in sorted(vs):
             allm.update(marks)
             for c in fails:
+                if c == 'X_SameLength':
+                    continue
                 if c.startswith('X_'):
                     raise Machinery(f"pair {p['name']}: {c} at step {step} (the driver did not produce the intended relation)")
                 if any(c.startswith(pre) for pre in clause_prefixes):
